@@ -37,6 +37,9 @@ func (s *Sim) craftVote(a *Account, r basics.Round, p, step uint64, val PValue) 
 
 func (s *Sim) inject(to int, tag protocol.Tag, data []byte, what string) {
 	from := s.cfg.Nodes // first adversary instance
+	if s.cfg.AdvInst == 0 {
+		from = -1 // ghost voters have no node
+	}
 	key, _ := msgKey(tag, data)
 	s.nextID++
 	s.inflight = append(s.inflight, &flight{id: s.nextID, from: from, to: to, tag: tag, data: data, key: "CRAFT(" + what + ") " + key, craft: true})
@@ -422,5 +425,101 @@ func (s *Sim) authCheck(b UBundle, data []byte, refValid bool, what string) {
 	if err == nil && !refValid {
 		_, rerr := RefBundleCheck(s, b)
 		s.violate("C04", "certificate-accepted", what, fmt.Sprintf("Certificate.Authenticate accepted a certificate for round %d (%s) that does not prove a quorum: %v", b.Round, what, rerr))
+	}
+}
+
+// ghostAction (C06 tally mode): one simulator-held key casts a vote at the honest nodes' current
+// round/period: for the leading value, for another value, as an equivocation, or as a duplicate of
+// something it already sent; delivery order, loss and duplication are the scheduler's as usual.
+func (s *Sim) ghostAction(a, b, c int) {
+	accts := Accounts()
+	if s.ghostSent == nil {
+		s.ghostSent = map[string][]PValue{}
+		s.ghostEq = map[int]bool{}
+	}
+	var r basics.Round = 1
+	for _, n := range s.nodes {
+		if n.led.next() > r {
+			r = n.led.next()
+		}
+	}
+	p := s.maxPeriod[r]
+	if a%9 == 0 && p > 0 {
+		p--
+	}
+	vals := s.values[r]
+	if len(vals) == 0 {
+		return
+	}
+	gi := s.cfg.AdvAccts[a%len(s.cfg.AdvAccts)]
+	g := accts[gi]
+	steps := []uint64{stepSoft, stepSoft, stepSoft, stepCert, stepCert, stepNext, stepNext, stepNext + 1, stepNext + 2, stepLate, stepRedo, stepDown}
+	step := steps[b%len(steps)]
+	key := fmt.Sprintf("%d|%d|%d|%d", gi, r, p, step)
+	sent := s.ghostSent[key]
+	cand := append([]PValue(nil), vals...)
+	if step >= stepNext && step != stepLate && step != stepRedo {
+		cand = append(cand, PValue{})
+	}
+	if step == stepDown {
+		cand = []PValue{{}}
+	}
+	var val PValue
+	mode := (b / 16) % 10
+	switch {
+	case len(sent) > 0 && mode < 3: // duplicate of an earlier vote
+		val = sent[c%len(sent)]
+		s.stat("ghost.duplicate", 1)
+	case len(sent) > 0 && mode < 6: // equivocate, if the equivocators' total stake stays below 40%
+		val = cand[c%len(cand)]
+		already := false
+		for _, x := range sent {
+			if x == val {
+				already = true
+			}
+		}
+		if !already {
+			if !s.ghostEq[gi] {
+				if (s.ghostEqStake+s.cfg.Stake[gi])*100 >= s.total.Raw*40 {
+					return
+				}
+				s.ghostEq[gi] = true
+				s.ghostEqStake += s.cfg.Stake[gi]
+			}
+			if len(sent) >= 2 {
+				return // at most two values per (key, step): a third adds nothing
+			}
+			s.stat("ghost.equivocation", 1)
+		}
+	case len(sent) > 0:
+		return
+	default:
+		val = cand[0]
+		if mode >= 7 {
+			val = cand[c%len(cand)]
+		}
+		s.stat("ghost.vote", 1)
+	}
+	if val.IsBottom() && (step == stepSoft || step == stepCert || step == stepLate || step == stepRedo) {
+		return
+	}
+	uv := s.craftVote(g, r, p, step, val)
+	if uv == nil {
+		return
+	}
+	found := false
+	for _, x := range sent {
+		if x == val {
+			found = true
+		}
+	}
+	if !found {
+		s.ghostSent[key] = append(sent, val)
+	}
+	s.emitted[voteSha(*uv)] = true
+	s.rememberVote(*uv)
+	data := protocol.EncodeReflect(uv)
+	for _, t := range s.honestTargets(c & 3) {
+		s.inject(t, protocol.AgreementVoteTag, data, "ghost")
 	}
 }
